@@ -99,7 +99,14 @@ impl<T: Elem> InPort for Feeder<T> {
         }
         let tags: Vec<Tag> = tags
             .iter()
-            .map(|(p, k, v)| Tag::new(*p, format!("k{k}"), TagValue::U64(*v)))
+            .map(|(p, k, v)| {
+                // key codes >= 100 are boolean tags (value != 0 = true)
+                if *k >= 100 {
+                    Tag::new(*p, format!("k{k}"), TagValue::Bool(*v != 0))
+                } else {
+                    Tag::new(*p, format!("k{k}"), TagValue::U64(*v))
+                }
+            })
             .collect();
         wb.produce(vals.len(), &tags);
     }
@@ -671,6 +678,35 @@ pub fn gen_tags(rng: &mut Rng, len: usize, heavy: bool) -> Vec<(usize, u64, u64)
     v
 }
 
+/// Burst markers for StreamToPdu: boolean tags with key code 100, mostly alternating start/end,
+/// sometimes doubled, missing or on the same sample, plus unrelated tags.
+pub fn gen_burst_tags(rng: &mut Rng, len: usize) -> Vec<(usize, u64, u64)> {
+    let mut v: Vec<(usize, u64, u64)> = vec![];
+    if len == 0 {
+        return v;
+    }
+    let mut pos = rng.below(len.min(40));
+    let mut on = rng.chance(1, 8);
+    while pos < len {
+        let val = if rng.chance(1, 10) { on as u64 } else { !on as u64 };
+        v.push((pos, 100, val));
+        if rng.chance(1, 12) {
+            v.push((pos, 100, rng.below(2) as u64));
+        }
+        if rng.chance(1, 6) {
+            v.push((pos, rng.below(4) as u64, rng.below(1000) as u64));
+        }
+        on = val == 1;
+        pos += match rng.below(4) {
+            0 => rng.range(0, 3),
+            1 => rng.range(1, 10),
+            _ => rng.range(1, 120),
+        };
+    }
+    v.sort_by_key(|t| t.0);
+    v
+}
+
 // ---------------------------------------------------------------- packet ports
 
 use rustradio::stream::{NCReadStream, NCWriteStream, new_nocopy_stream};
@@ -704,7 +740,7 @@ impl<T: Elem> InPort for PktFeeder<T> {
     fn advance(&mut self, _k: usize) {}
 }
 
-/// Packet output: `Drain(j, k)` pops up to `k` packets; a packet is collected as `len, items…`.
+/// Packet output: `Drain(j, k)` pops up to `k` packets; a packet is collected as one value, the hash of `len, items…`.
 pub struct PktDrainer<T: Elem> {
     r: Option<NCReadStream<Vec<T>>>,
     id: usize,
@@ -725,8 +761,9 @@ impl<T: Elem> OutPort for PktDrainer<T> {
             for _ in 0..k {
                 match r.pop() {
                     Some((p, _)) => {
-                        out.push(p.len() as u64);
-                        out.extend(p.iter().map(|v| v.to_obs() as u64));
+                        // one value per packet: the hash of `len, items…` (same as `RR.Blk.pktCode`)
+                        let code = hash_list(std::iter::once(p.len() as u128).chain(p.iter().map(|v| v.to_obs())));
+                        out.push(code as u64);
                     }
                     None => break,
                 }
